@@ -278,6 +278,9 @@ class ShardCMC(CMCReadWrite, ABC):
             for offset, end in zip(offsets[::2], offsets[1::2]):
                 start = int(offset + self.header_byte_length)
                 length = int(end - offset)
+                if length == 0:
+                    # minishard without any chunk (empty slot of the index)
+                    continue
                 minishard_raw_buffer = self.read_bytes(start, length)
                 minishard_decoded_buffer = self.shard_spec.index_decoder(
                     minishard_raw_buffer)
